@@ -51,7 +51,8 @@ CONSTANTS NC, NS,        \* client / server port instances
           MinChunk,      \* TRUE: a loan takes the smallest free chunk id; FALSE: any free id
           AllowKnown,    \* TRUE: executions may go through the known-defect shapes (tagged in kd)
           Filter,        \* TRUE: receive filters by request id (FALSE only in must-fail instances)
-          AvoidDeadReuse \* TRUE: no client is created while an active request of a dead client exists
+          AvoidDeadReuse, \* TRUE: no client is created while an active request of a dead client exists
+          TrackIds       \* TRUE: chunk identities are tracked; FALSE: chunks are only counted (id 0)
 
 VARIABLES cst, sst,      \* port status: "none" | "alive" | "dead"
           cview, sview,  \* connections a port currently has (as of its last update_connections)
@@ -64,7 +65,7 @@ VARIABLES cst, sst,      \* port status: "none" | "alive" | "dead"
           qref,          \* [c -> [n -> reference counter]] chunk reference counter of client c
           areq,          \* [s -> set of active requests [c, n, ch, x, conn, lc, nj]]
           rst,           \* [s -> [c -> [ch -> [n, hint]]]] channel state (n = 0: CLOSED)
-          rq,            \* [s -> [c -> [ch -> Seq([n, j, x])]]] response connection
+          rq,            \* [s -> [c -> [ch -> Seq([n, j, x, q])]]] response connection (q: send order, ghost)
           held,          \* [c -> set of held responses [s, ch, n, j, x]]
           rloans,        \* [s -> set of unsent responses [c, n, j, x]]
           closedA,       \* ghost: active requests that were dropped  <<s, c, n>>
@@ -77,7 +78,7 @@ vars == <<cst, sst, cview, sview, cexp, pool, nextn, loans, pend, reqq, qref, ar
           rloans, closedA, delivered, gone, kd, out>>
 \* everything except the ghosts / last result (VIEW of the MC instances)
 view == <<cst, sst, cview, sview, cexp, pool, nextn, loans, pend, reqq, qref, areq, rst, rq, held,
-          rloans, kd>>
+          rloans>>
 
 Clients == 1..NC
 Servers == 1..NS
@@ -260,7 +261,7 @@ UpdateServer(s) ==
 (* ------------------------------- client: requests ------------------------- *)
 FreeReqIds(c) == (1..NREQ) \ ReqChunkIds(c)
 PickCh(c) == IF PoolFifo THEN {Head(pool[c])} ELSE Range(pool[c])
-PickReqX(c) == IF MinChunk THEN {Min(FreeReqIds(c))} ELSE FreeReqIds(c)
+PickReqX(c) == IF ~TrackIds THEN {0} ELSE IF MinChunk THEN {Min(FreeReqIds(c))} ELSE FreeReqIds(c)
 Without(q, v) == SelectSeq(q, LAMBDA e : e # v)
 SortedSeq(S) == [i \in 1..Cardinality(S) |-> CHOOSE v \in S : Cardinality({w \in S : w < v}) = i - 1]
 \* returning a channel id: to the end of the FIFO (code), or into a canonical order when the order is irrelevant
@@ -438,7 +439,7 @@ ReceiveResponse(c, n) ==
                    /\ rq' = [rq EXCEPT ![s][c][ch] = Tail(@)]
                    /\ held' = [held EXCEPT ![c] = @ \cup {[s |-> s, ch |-> ch, n |-> e.n,
                                                             j |-> e.j, x |-> e.x]}]
-                   /\ pend' = [pend EXCEPT ![c] = (@ \ {p}) \cup {[p EXCEPT !.last[s] = e.j]}]
+                   /\ pend' = [pend EXCEPT ![c] = (@ \ {p}) \cup {[p EXCEPT !.last[s] = e.q]}]
                    /\ out' = Out("some", e.n, ch, e.x, s, e.j, 0, 0)
               \/ /\ eligible = {}
                  /\ \E r \in {"none", "ExceedsMaxBorrows"} :
@@ -495,7 +496,7 @@ ReceiveRequest(s) ==
                /\ \A a \in areq[s] : ~(a.c = c /\ a.n = e.n)
                /\ reqq' = [reqq EXCEPT ![c][s] = Tail(@)]
                /\ areq' = [areq EXCEPT ![s] = @ \cup {[c |-> c, n |-> e.n, ch |-> e.ch, x |-> e.x,
-                                                        conn |-> c \in sview[s], lc |-> 0, nj |-> 0]}]
+                                                        conn |-> c \in sview[s], lc |-> 0, nj |-> 0, sq |-> 0]}]
                /\ out' = Out("some", e.n, e.ch, e.x, c, 0, 0, B2N(~HeadClosed(s, c)))
           \/ /\ eligible = {}
              /\ \E r \in {"none", "ExceedsMaxBorrows"} :
@@ -519,7 +520,7 @@ HasRequests(s) ==
 
 FreeRespIds(s) == (1..NRESP) \ RespChunkIds(s)
 \* chunk id 0 = not observable (copy API)
-PickRespX(s, observable) == IF ~observable THEN {0}
+PickRespX(s, observable) == IF ~observable \/ ~TrackIds THEN {0}
                             ELSE IF MinChunk THEN {Min(FreeRespIds(s))} ELSE FreeRespIds(s)
 SenderLoanLimit == MLR * MA * MCL
 
@@ -573,8 +574,8 @@ SendResponse(s, c, n, j) ==
     /\ \E a \in areq[s], l \in rloans[s] :
         /\ a.c = c /\ a.n = n /\ l.c = c /\ l.n = n /\ l.j = j
         /\ rloans' = [rloans EXCEPT ![s] = @ \ {l}]
-        /\ areq' = ReplaceAr(s, a, [a EXCEPT !.lc = @ - 1])
-        /\ RespDeliver(s, a, [n |-> n, j |-> j, x |-> l.x])
+        /\ areq' = ReplaceAr(s, a, [a EXCEPT !.lc = @ - 1, !.sq = @ + 1])
+        /\ RespDeliver(s, a, [n |-> n, j |-> j, x |-> l.x, q |-> a.sq + 1])
     /\ out' = OutR("ok")
     /\ UNCHANGED <<cst, sst, cview, sview, cexp, pool, nextn, loans, pend, reqq, qref, rst, held,
                    closedA, delivered, gone>>
@@ -586,8 +587,8 @@ SendCopyResponse(s, c, n) ==
         /\ a.nj < MaxJ
         /\ LET o == LoanOutcome(s, a) IN
            IF o = "ok"
-           THEN /\ areq' = ReplaceAr(s, a, [a EXCEPT !.nj = @ + 1])
-                /\ RespDeliver(s, a, [n |-> n, j |-> a.nj + 1, x |-> 0])
+           THEN /\ areq' = ReplaceAr(s, a, [a EXCEPT !.nj = @ + 1, !.sq = @ + 1])
+                /\ RespDeliver(s, a, [n |-> n, j |-> a.nj + 1, x |-> 0, q |-> a.sq + 1])
                 /\ out' = Out("ok", n, a.ch, 0, s, a.nj + 1, 0, 0)
            ELSE LoanFailure(s, a, o) /\ UNCHANGED rq
     /\ UNCHANGED <<cst, sst, cview, sview, cexp, pool, nextn, loans, pend, reqq, qref, rst, held, rloans, closedA, delivered, gone>>
@@ -680,21 +681,37 @@ ImplicitUpdate ==
     \/ \E c \in Clients : cst[c] = "alive" /\ ~SyncedC(c) /\ UpdateClient(c)
     \/ \E s \in Servers : sst[s] = "alive" /\ ~SyncedS(s) /\ UpdateServer(s)
 
-ClientApi(c) ==
-    \/ CreateClient(c) \/ DropClient(c) \/ UpdateClient(c) \/ LoanRequest(c) \/ SendCopy(c)
-    \/ \E n \in 1..nextn[c] :
-         \/ SendRequest(c, n) \/ DropRequest(c, n) \/ DropPending(c, n) \/ ReceiveResponse(c, n)
-         \/ IsConnectedP(c, n) \/ HasResponse(c, n) \/ DisconnectHint(c, n)
-    \/ \E r \in held[c] : DropResponse(c, r.s, r.n, r.j)
-
-ServerApi(s) ==
-    \/ CreateServer(s) \/ DropServer(s) \/ UpdateServer(s) \/ ReceiveRequest(s) \/ HasRequests(s)
-    \/ \E a \in areq[s] :
-         \/ LoanResponse(s, a.c, a.n) \/ SendCopyResponse(s, a.c, a.n) \/ DropActive(s, a.c, a.n)
-         \/ IsConnectedA(s, a.c, a.n) \/ HasDisconnectHint(s, a.c, a.n)
-    \/ \E l \in rloans[s] : SendResponse(s, l.c, l.n, l.j) \/ DropResponseLoan(s, l.c, l.n, l.j)
-
-Next == Internal \/ (\E c \in Clients : ClientApi(c)) \/ (\E s \in Servers : ServerApi(s))
+\* every API call is a top-level disjunct with constant bounds (TLC reports coverage per action)
+Next ==
+    \/ \E c \in Clients, s \in Servers : ExpireGone(c, s)
+    \/ \E c \in Clients, s \in Servers : SkipClosed(s, c)
+    \/ \E c \in Clients, s \in Servers : LoseDead(s, c)
+    \/ \E c \in Clients, s \in Servers, ch \in Chans : DropStale(c, s, ch)
+    \/ \E c \in Clients : CreateClient(c)
+    \/ \E c \in Clients : DropClient(c)
+    \/ \E c \in Clients : UpdateClient(c)
+    \/ \E c \in Clients : LoanRequest(c)
+    \/ \E c \in Clients : SendCopy(c)
+    \/ \E c \in Clients, n \in 1..MaxN : SendRequest(c, n)
+    \/ \E c \in Clients, n \in 1..MaxN : DropRequest(c, n)
+    \/ \E c \in Clients, n \in 1..MaxN : DropPending(c, n)
+    \/ \E c \in Clients, n \in 1..MaxN : ReceiveResponse(c, n)
+    \/ \E c \in Clients, n \in 1..MaxN : IsConnectedP(c, n)
+    \/ \E c \in Clients, n \in 1..MaxN : HasResponse(c, n)
+    \/ \E c \in Clients, n \in 1..MaxN : DisconnectHint(c, n)
+    \/ \E c \in Clients, s \in Servers, n \in 1..MaxN, j \in 1..MaxJ : DropResponse(c, s, n, j)
+    \/ \E s \in Servers : CreateServer(s)
+    \/ \E s \in Servers : DropServer(s)
+    \/ \E s \in Servers : UpdateServer(s)
+    \/ \E s \in Servers : ReceiveRequest(s)
+    \/ \E s \in Servers : HasRequests(s)
+    \/ \E s \in Servers, c \in Clients, n \in 1..MaxN : LoanResponse(s, c, n)
+    \/ \E s \in Servers, c \in Clients, n \in 1..MaxN : SendCopyResponse(s, c, n)
+    \/ \E s \in Servers, c \in Clients, n \in 1..MaxN : DropActive(s, c, n)
+    \/ \E s \in Servers, c \in Clients, n \in 1..MaxN : IsConnectedA(s, c, n)
+    \/ \E s \in Servers, c \in Clients, n \in 1..MaxN : HasDisconnectHint(s, c, n)
+    \/ \E s \in Servers, c \in Clients, n \in 1..MaxN, j \in 1..MaxJ : SendResponse(s, c, n, j)
+    \/ \E s \in Servers, c \in Clients, n \in 1..MaxN, j \in 1..MaxJ : DropResponseLoan(s, c, n, j)
 Spec == Init /\ [][Next]_vars
 
 (* =============================== invariants ================================ *)
@@ -740,8 +757,8 @@ RoutingAction ==
 OrderAtMostOnce ==
     \A c \in Clients : \A p \in pend[c] : \A s \in Servers :
         LET own == SelectSeq(rq[s][c][p.ch], LAMBDA e : e.n = p.n) IN
-        /\ \A i \in 1..Len(own) : own[i].j > p.last[s]
-        /\ \A i, k \in 1..Len(own) : i < k => own[i].j < own[k].j
+        /\ \A i \in 1..Len(own) : own[i].q > p.last[s]
+        /\ \A i, k \in 1..Len(own) : i < k => own[i].q < own[k].q
 
 \* CloseObserved: a dropped end is visible at the other end
 CloseObserved ==
@@ -785,7 +802,7 @@ NoLeak ==
 SingleHolder ==
     \A s \in Servers :
         /\ Cardinality(RespHolders(s)) =
-             Cardinality(rloans[s]) + Cardinality(UNION {{r \in held[c] : r.s = s} : c \in Clients})
+             Cardinality(rloans[s]) + Cardinality(UNION {{<<c, r>> : r \in {t \in held[c] : t.s = s}} : c \in Clients})
              + Cardinality({<<c, ch, i>> \in Clients \X Chans \X (1..RB) : i <= Len(rq[s][c][ch])})
 
 \* C08 "inside the limits no OutOfMemory" -- the closed formulas of static_config/request_response.rs
